@@ -8,6 +8,7 @@ import (
 	"bytes"
 	"encoding/hex"
 	"fmt"
+	"os"
 	"sort"
 	"strings"
 	"time"
@@ -540,7 +541,10 @@ func (b *blockBuilder) build(o op) {
 		b.add(a, &txMeta{kind: "des", nDE: n}, tsstypes.NewMsgSubmitDEs(w.wallet.Fresh(a.Addr.String(), n), a.Addr.String()))
 	case "desall":
 		n := 1 + abs(o.B)%4
-		for _, a := range w.pool {
+		for i, a := range w.pool {
+			if o.Mask != 0 && o.Mask&(1<<uint(i)) == 0 {
+				continue
+			}
 			b.add(a, &txMeta{kind: "des", nDE: n}, tsstypes.NewMsgSubmitDEs(w.wallet.Fresh(a.Addr.String(), n), a.Addr.String()))
 		}
 	case "act":
@@ -581,6 +585,10 @@ func (b *blockBuilder) build(o op) {
 			if !total.IsZero() {
 				fl = total.Sub(sdk.NewInt64Coin("uband", 1))
 			}
+		}
+		if fl.IsZero() {
+			// MsgRequestSignature.ValidateBasic refuses an empty fee limit: callers always name a positive one
+			fl = sdk.NewCoins(sdk.NewInt64Coin("uband", 1))
 		}
 		w.reqCount++
 		text := []byte(fmt.Sprintf("c18 request %d", w.reqCount))
@@ -887,6 +895,9 @@ func (w *world) onRequestTx(meta *txMeta, tr *abci.ExecTxResult) {
 				w.v.Failf("C18/request-blocked-in-transition", "request rejected (code %d, %s) while the transition awaits execution although the current group %d can sign and the fee limit %s covers %s: the incoming group must not affect the current group's signing", tr.Code, tr.Log, cur, meta.feeLimit, total)
 			} else {
 				w.v.Count("converse_request_rejected_unexplained", 1)
+				if os.Getenv("C18_DEBUG") != "" {
+					fmt.Printf("C18_DEBUG unexplained rejection: code=%d log=%s limit=%s total=%s cur=%d\n", tr.Code, tr.Log, meta.feeLimit, total, cur)
+				}
 			}
 		}
 		return
@@ -937,6 +948,10 @@ func (w *world) onRequestTx(meta *txMeta, tr *abci.ExecTxResult) {
 			w.class("req-in-WE-incoming-not-created")
 			if meta.createFailed == 0 {
 				w.v.Count("incoming_skipped_without_event", 1)
+			}
+			if w.canSign(inc) {
+				// "best effort": not a violation, but worth knowing if it ever happens
+				w.v.Count("converse_incoming_not_created_though_able", 1)
 			}
 		}
 		if cur == 0 {
